@@ -40,6 +40,17 @@ const R_STUB: &[&str] = &["transparent probes around the real trigger, roller an
 pub fn props() -> Vec<PropCfg> {
     vec![
         PropCfg {
+            id: "C02",
+            profiles: &[("C02", 1)],
+            quick_runs: 3000,
+            thorough_runs: 20_000,
+            level: "exploration",
+            rule: "one case = one process: the global logger is initialised once through a seeded path (init_config, init_config_with_err_handler, init_raw_config with real file appenders, init_file with a custom appender kind) and a seeded configuration, then 1-12 histories run in it: one thread reconfigures through the Handle (levels going up and down) and logs, 0-2 threads log concurrently, all records go through the log macros; after initialisation and after every set_config return log::max_level() and log::logger().enabled() over 16 targets x 5 levels are compared with the model, every record's deliveries with the routing model, every history with register linearizability; non-trivial = the case contains at least one reconfiguration or initialises from a file format; distinct = distinct event-log fingerprints",
+            assumptions: &["one reconfiguring thread per history (the property quantifies over sequences of reconfigurations)", "init_raw_config / init_file give no Handle, so those processes only check the initial configuration", "each case costs a process start, so the quick tier is small"],
+            real: &["log facade (macros, global max level, set_boxed_logger)", "log4rs::init_config / init_config_with_err_handler / init_raw_config / init_file", "Handle::set_config", "Logger::enabled / log", "FileAppender + PatternEncoder (init_raw_config path)"],
+            stub: &["version-tagged capturing appenders and scripted filters", "thread scheduler (baton)"],
+        },
+        PropCfg {
             id: "C03",
             profiles: &[("C03", 1)],
             quick_runs: 20_000,
@@ -49,6 +60,17 @@ pub fn props() -> Vec<PropCfg> {
             assumptions: &["filter responses and appender failures are pure functions of (stub, record), hence independent of the interleaving", "no reconfiguration in this profile (Handle::set_config installs the default stderr handler, so the configured handler is only observable before the first swap)"],
             real: &["log4rs::Logger (ArcSwap snapshot, ConfiguredLogger tree, Appender::append filter loop, error collection and hand-off)", "ThresholdFilter", "Config builder"],
             stub: &["capturing appenders (optionally failing per call)", "scripted filters", "capturing error handler", "thread scheduler (baton)"],
+        },
+        PropCfg {
+            id: "C10",
+            profiles: &[("C10", 7), ("C10-hard", 1)],
+            quick_runs: 200_000,
+            thorough_runs: 20_000_000,
+            level: "exploration",
+            rule: "one case = one seeded pattern tree (formatters m/l/t with fill/alignment/min/max specs, fills over multi-byte and syntax characters, nested groups up to depth 3, m <= M), a message built from 1-4 Display pieces over 1-4-byte scalars and combining marks, and a downstream writer that accepts a scripted 1..len bytes per call (may stop inside a character) and answers Interrupted on scripted calls; output compared with the character-exact truncate-then-pad specification; profile C10-hard makes the writer fail for good and only asserts no panic; non-trivial = at least one short write or interruption happened; distinct = distinct fingerprints of (pattern, message, accepted sizes, output)",
+            assumptions: &["the fault is injected at the encode::Write trait seam; no threads or clock are involved in this property"],
+            real: &["PatternEncoder (parser, Chunk::encode, MaxWidthWriter, LeftAlignWriter, RightAlignWriter)", "std write_all / write_fmt retry loops"],
+            stub: &["downstream encode::Write (short-writing, interrupting, failing)"],
         },
         PropCfg {
             id: "C15",
@@ -214,6 +236,82 @@ pub struct WorkerSummary {
     pub fault_points: u64,
 }
 
+#[derive(Serialize, Deserialize, Default)]
+pub struct OutcomeLite {
+    pub violations: Vec<Violation>,
+    pub harness_error: Option<String>,
+    pub events_hash: u64,
+    pub decisions: Vec<u32>,
+    pub nontrivial: bool,
+    pub sim_ns: i64,
+    pub probes: BTreeMap<String, u64>,
+    pub switches: u64,
+    pub steps: u64,
+    pub list_fallbacks: u64,
+    pub trace: Option<Vec<String>>,
+}
+
+#[derive(Serialize, Deserialize)]
+pub struct RunOneInput {
+    pub scenario: Scenario,
+    pub sched: Option<Sched>,
+    pub trace: bool,
+}
+
+pub fn to_lite(o: &Outcome) -> OutcomeLite {
+    OutcomeLite {
+        violations: o.violations.clone(),
+        harness_error: o.harness_error.clone(),
+        events_hash: o.summary.events_hash,
+        decisions: o.summary.decisions.clone(),
+        nontrivial: o.nontrivial,
+        sim_ns: o.sim_ns,
+        probes: o.probes.clone(),
+        switches: o.summary.switches,
+        steps: o.summary.steps,
+        list_fallbacks: o.summary.list_fallbacks,
+        trace: o.summary.trace.clone(),
+    }
+}
+
+static ISOLATED_SEQ: std::sync::atomic::AtomicU64 = std::sync::atomic::AtomicU64::new(0);
+
+/// Executes a scenario, in a process of its own when it needs one.
+pub fn exec(scn: &Scenario, opts: &ExecOpts) -> Outcome {
+    if !worlds::needs_fresh_process(scn) {
+        return worlds::execute(scn, opts);
+    }
+    let dir = crate::fsutil::scratch_base().join("iso");
+    let _ = fs::create_dir_all(&dir);
+    let n = ISOLATED_SEQ.fetch_add(1, std::sync::atomic::Ordering::SeqCst);
+    let inp = dir.join(format!("in{}.json", n));
+    let outp = dir.join(format!("out{}.json", n));
+    let input = RunOneInput { scenario: scn.clone(), sched: opts.sched.clone(), trace: opts.trace };
+    fs::write(&inp, serde_json::to_vec(&input).unwrap()).unwrap();
+    let exe = std::env::current_exe().expect("current_exe");
+    let st = Command::new(exe).arg("run-one").arg(&inp).arg(&outp).stdin(Stdio::null()).stdout(Stdio::null()).stderr(Stdio::null()).status();
+    let mut out = Outcome::default();
+    match fs::read(&outp).ok().and_then(|b| serde_json::from_slice::<OutcomeLite>(&b).ok()) {
+        Some(l) => {
+            out.violations = l.violations;
+            out.harness_error = l.harness_error;
+            out.summary.events_hash = l.events_hash;
+            out.summary.decisions = l.decisions;
+            out.summary.switches = l.switches;
+            out.summary.steps = l.steps;
+            out.summary.list_fallbacks = l.list_fallbacks;
+            out.summary.trace = l.trace;
+            out.nontrivial = l.nontrivial;
+            out.sim_ns = l.sim_ns;
+            out.probes = l.probes;
+        }
+        None => out.harness_error = Some(format!("isolated execution produced no result (status {:?})", st.map(|s| s.code()))),
+    }
+    let _ = fs::remove_file(&inp);
+    let _ = fs::remove_file(&outp);
+    out
+}
+
 fn relevant<'a>(prop: &str, out: &'a Outcome) -> Option<&'a Violation> {
     out.violations.iter().find(|v| v.property == prop)
 }
@@ -229,7 +327,7 @@ pub fn worker(prop_id: &str, tier: Tier, root: u64, from: u64, to: u64, outdir: 
         let profile = profile_for(&cfg, index);
         let seed = run_seed(root, profile, index);
         let scn0 = worlds::generate(profile, tier, seed);
-        let out0 = worlds::execute(&scn0, &ExecOpts::default());
+        let out0 = exec(&scn0, &ExecOpts::default());
         let vars = if out0.harness_error.is_none() { worlds::variants(profile, &scn0, &out0) } else { vec![] };
         if !vars.is_empty() {
             sum.histories += 1;
@@ -241,7 +339,7 @@ pub fn worker(prop_id: &str, tier: Tier, root: u64, from: u64, to: u64, outdir: 
         for (vi, (scn, pre)) in todo.into_iter().enumerate() {
         let out = match pre {
             Some(o) => o,
-            None => worlds::execute(&scn, &ExecOpts::default()),
+            None => exec(&scn, &ExecOpts::default()),
         };
         sum.runs += 1;
         sum.decisions += out.summary.decisions.len() as u64;
@@ -318,7 +416,7 @@ pub fn load_replay(p: &Path) -> Result<Replay, String> {
 
 /// Re-executes a replay file. Ok(Some(v)) = the violation reproduced.
 pub fn replay(rp: &Replay, trace: bool) -> (Option<Violation>, Outcome) {
-    let out = worlds::execute(&rp.scenario, &ExecOpts { sched: Some(Sched::List(rp.decisions.clone())), trace });
+    let out = exec(&rp.scenario, &ExecOpts { sched: Some(Sched::List(rp.decisions.clone())), trace });
     let v = out
         .violations
         .iter()
@@ -328,7 +426,7 @@ pub fn replay(rp: &Replay, trace: bool) -> (Option<Violation>, Outcome) {
 }
 
 fn fails_same(rp: &Replay, scn: &Scenario, sched: Sched) -> Option<(Violation, Vec<u32>, u64)> {
-    let out = worlds::execute(scn, &ExecOpts { sched: Some(sched), trace: false });
+    let out = exec(scn, &ExecOpts { sched: Some(sched), trace: false });
     if out.harness_error.is_some() {
         return None;
     }
